@@ -887,8 +887,8 @@ pub fn main(ctx: &Ctx) {
     campaign(
         ctx,
         Campaign {
-            total_cases: ctx.pick(1_500, 25_000),
-            max_shrink_iters: 200,
+            total_cases: ctx.pick(1_200, 20_000),
+            max_shrink_iters: 100,
             limits: Limits { cpu_s: 30, wall_s: 120, as_bytes: 4 << 30 },
             meta: Meta {
                 rule: "1-3 status conditions of {reliable reader R1, best-effort reader R2 with max_samples 1, writer W, subscriber S} with generated enabled masks, attached to 1-2 wait sets; generated sequences of wait(timeout) calls (concurrent tasks), writes (DATA_AVAILABLE / DATA_ON_READERS / SAMPLE_REJECTED), matching endpoint creation/deletion (SUBSCRIPTION/PUBLICATION_MATCHED), deadline misses through time advances, set_enabled_statuses, and clearing reads (take/read, get_*_matched_status, get_offered_deadline_missed_status); the run queue is permuted by a schedule tape (16 choices per operation); non-trivial = some wait was pending while a status was raised or an attached condition's mask was changed; distinct = hash of the case",
